@@ -136,7 +136,26 @@ def replay_ordering(args):
 
 
 def replay_memo(args):
-    # the memo checks are concrete and deterministic: the failing observation itself is the replay
+    if args.get("what") == "fact_matrices":
+        from yadism.esf import scale_variations as svmod
+
+        sv = svmod.ScaleVariations(order=args["order"], interpolator=None, activate_ren=True, activate_fact=True)
+        rnd = np.random.default_rng(3)
+        for d in sv.raw_labels:
+            for l in d:
+                sv.operators[(l, args["nf"])] = rnd.normal(size=(2, 2))
+        import copy as _copy
+
+        before = _copy.deepcopy(sv.operators)
+        f1 = sv.fact_matrices(args["nf"])
+        f1 = {k: np.array(v, dtype=float).copy() for k, v in f1.items()}
+        f2 = sv.fact_matrices(args["nf"])
+        changed = [k for k in before if not np.array_equal(before[k], sv.operators[k])]
+        differ = [k for k in f1 if not np.allclose(f1[k], np.array(f2[k], dtype=float), rtol=1e-13, atol=0)]
+        if changed or differ:
+            return True, f"fact_matrices(nf={args['nf']}) changed memo entries {changed[:3]}; second answer differs for {differ[:3]}"
+        return False, "memo untouched, same answer"
+    # the other memo checks are concrete and deterministic: the failing observation itself is the replay
     return True, f"memo check '{args.get('what')}' failed on the real code (deterministic concrete run, see c14.py part 3)"
 
 
@@ -296,6 +315,39 @@ def run(chk, only=None):
                 chk.discharged += 1
             else:
                 chk.report(f"memo:compute_raw:{seq}", f"compute_raw memo is not transparent for the nf sequence {seq}", "memo", dict(what="compute_raw", seq=list(seq)))
+        # consumers of the memo must not modify it: fact_matrices twice on the same manager (symbolic 2x2 operators)
+        for nf, order in itertools.product((3, 4, 6) if q else (3, 4, 5, 6), (1, 2)):
+            with Ctx(chk.seed) as ctx:
+                sv = svmod.ScaleVariations(order=order, interpolator=None, activate_ren=True, activate_fact=True)
+                for d in sv.raw_labels:
+                    for l in d:
+                        m = np.empty((2, 2), dtype=object)
+                        for a, b in itertools.product(range(2), range(2)):
+                            m[a, b] = ctx.var(f"{l}[{a},{b}]", None, None)
+                        sv.operators[(l, nf)] = m
+                before = {k: [[e.t.get_id() for e in row] for row in v] for k, v in sv.operators.items()}
+                f1 = sv.fact_matrices(nf)
+                mid = {k: [[S.lift(e).t.get_id() for e in row] for row in v] for k, v in sv.operators.items()}
+                f2 = sv.fact_matrices(nf)
+                after = {k: [[S.lift(e).t.get_id() for e in row] for row in v] for k, v in sv.operators.items()}
+                same_out = set(f1) == set(f2)
+                diffs = []
+                if same_out:
+                    for k in f1:
+                        for e1, e2 in zip(np.asarray(f1[k], dtype=object).ravel(), np.asarray(f2[k], dtype=object).ravel()):
+                            diffs.append(S.lift(e1).t != S.lift(e2).t)
+                chk.obligations += 1
+                chk.evaluations += 1
+                chk.nontrivial.add(f"memo:fact_matrices:{nf}:{order}")
+                okf = before == mid == after and same_out
+                if okf and diffs:
+                    v = chk.prover.check(ctx.facts() + [z3.Or(*diffs)], f"fact_matrices twice nf={nf} order={order}")
+                    okf = v.status == "unsat"
+                if okf:
+                    chk.discharged += 1
+                else:
+                    chk.report(f"memo:fact_matrices:mutates", f"ScaleVariations.fact_matrices(nf={nf}) modifies the operator memo / answers differently "
+                               f"the second time (order {order})", "memo", dict(what="fact_matrices", nf=nf, order=order))
         # interpolator memo: distinct arguments -> distinct grids, same arguments -> same object
         loads = []
 
